@@ -320,7 +320,7 @@ def worker(acc, shard, nshards, tier, seed):
                     check_linkage(acc, np, hier, T, method)
         vals = [T[r][c] for r in range(n) for c in range(r + 1, n)]
         acc.case('synthetic-n%d' % n, nontrivial=(len(set(vals)) < len(vals) or inf in vals or merges >= 2))
-        if acc.states % 2003 == 1:
+        if not acc.samples or acc.states % 2003 == 1:
             acc.sample({'table': T})
     A2 = univ.alphabet(univ.BASE2, seed)
     sers = univ.series(A2, 1, 2)
